@@ -214,6 +214,9 @@ func (h *HyperLogLog32) UnmarshalBinary(b []byte) error {
 	if err != nil {
 		return err
 	}
+	if h.p < 4 || w32 < h.p || len(h.register) != 1<<h.p {
+		return errors.New("card: register length does not match precision")
+	}
 	return nil
 }
 
